@@ -10,6 +10,7 @@ import itertools
 import json
 import os
 import random
+import signal
 import time
 import types
 from fractions import Fraction
@@ -430,9 +431,9 @@ def unit_sizes(ctx):
         cfg = dict(BASE_CFG, optimiser='pop_random_mutation', num_of_generations=1, timeout_min=1.0, max_pop_size=mx,
                    pop_size=1, diversity_check=1)
         opt, _, _ = optrun.make_optimiser(cfg, [])
-        for unique, dup in itertools.product(range(1, 9), [0, 2]):
+        for unique, dup in itertools.product(range(0, 9), [0, 2]):
             pop = [Individual(optrun.build_graph(chains[i])) for i in range(unique)]
-            pop += [Individual(optrun.build_graph(chains[0])) for _ in range(dup)]
+            pop += [Individual(optrun.build_graph(chains[0])) for _ in range(dup if unique else 0)]
             rng.shuffle(pop)
             obs = len(opt.get_structure_unique_population(pop, lambda p: p))
             cases.append('UDiversity %s %s %s' % (oz(mx), c_Z(unique), c_Z(obs)))
@@ -616,6 +617,26 @@ def _minutes(delta):
     return [us, 60 * 10 ** 6]
 
 
+class RunTimeout(BaseException):
+    """raised by the watchdog inside optimise(); not an Exception, so that no `except Exception` of the code
+    under test can swallow it"""
+
+
+def run_limit_s(cfg):
+    """hard wall-clock bound of one run (generous for a loaded machine): a zero budget must end within
+    PROMPT_S + 10, a tiny timeout within 45 s, a run bounded by <= 5 generations of <= 12 individuals within 100 s"""
+    tm = cfg.get('timeout_min')
+    if tm is not None and tm <= 0:
+        return PROMPT_S + 10
+    if tm is not None and tm <= TINY:
+        return 45.0
+    return 100.0
+
+
+def _on_alarm(signum, frame):
+    raise RunTimeout()
+
+
 def run_real(cfg):
     """one optimisation with the REAL optimiser; observations as JSON-able data"""
     import logging
@@ -652,16 +673,24 @@ def run_real(cfg):
                     raise
             opt._evolve_population = counted
         t0 = time.time()
+        rec['limit_s'] = run_limit_s(cfg)
+        old_handler = signal.signal(signal.SIGALRM, _on_alarm)
+        signal.setitimer(signal.ITIMER_REAL, rec['limit_s'])
         try:
             with open(os.devnull, 'w') as devnull, contextlib.redirect_stderr(devnull):
                 opt.optimise(objective)
             rec['outcome'] = 'ok'
+        except RunTimeout:
+            rec['outcome'] = 'timeout'
         except Exception as ex:  # noqa
             import traceback
             rec['outcome'] = 'raise:' + type(ex).__name__
             rec['exception'] = traceback.format_exc()[-1200:]
             files = {os.path.basename(f.filename) for f in traceback.extract_tb(ex.__traceback__)}
             rec['limit_raise'] = bool(files & LIMIT_FILES)
+        finally:
+            signal.setitimer(signal.ITIMER_REAL, 0)
+            signal.signal(signal.SIGALRM, old_handler)
         rec['wall_ms'] = int((time.time() - t0) * 1000)
         start = getattr(opt.timer, 'start', None)
         rec['end_minutes'] = _minutes(datetime.datetime.now() - start) if start else [0, 1]
@@ -695,11 +724,11 @@ def run_case(rec):
     pops = c_list(['{| p_label := %s; p_size := %s; p_gen := %s; p_stag := %s; p_minutes := %s; p_stagdur := %s; p_popsize := %s |}' % (
         LABEL.get(p['label'], 'POtherLabel'), c_nat(p['size']), c_nat(p['gen']), c_nat(p['stag']), fr(p['minutes']),
         fr(p['stagdur']), c_Z(p['pop_size'])) for p in rec['pops']], 'opop')
-    return ('{| r_populational := %s; r_lim := %s; r_maxpop := %s; r_adaptive := %s; r_ok := %s; r_limit_raise := %s; r_pops := %s; '
+    return ('{| r_populational := %s; r_lim := %s; r_maxpop := %s; r_adaptive := %s; r_ok := %s; r_timed_out := %s; r_limit_raise := %s; r_pops := %s; '
             'r_started := %s; r_broke := %s; r_evolved_sizes := %s; r_iters := %s; r_call_minutes := %s; '
             'r_end_minutes := %s; r_wall_ms := %s |}') % (
         c_bool(populational), limits_coq(*cfg_limits(cfg)), oz(cfg.get('max_pop_size')), c_bool(adaptive),
-        c_bool(rec['outcome'] == 'ok'), c_bool(bool(rec.get('limit_raise'))), pops, c_nat(rec['started']), c_bool(rec['broke']),
+        c_bool(rec['outcome'] == 'ok'), c_bool(rec['outcome'] == 'timeout'), c_bool(bool(rec.get('limit_raise'))), pops, c_nat(rec['started']), c_bool(rec['broke']),
         c_list([c_nat(n) for n in rec['evolved_sizes']], 'nat'), c_nat(rec['iters']),
         c_list([fr(m) for m in rec['call_minutes']], 'Q'), fr(rec['end_minutes']), c_Z(rec['wall_ms']))
 
@@ -772,6 +801,13 @@ def make_configs(ctx):
         if rng.random() < 0.2:
             cfg['objective'] = {'metrics': rng.choice([['size', 'depth'], ['plateau', 'neg_size']]), 'multi': True}
         out.append(cfg)
+    # more initial graphs than max_pop_size: the genetic optimisers clamp at the first step (the two random-mutation
+    # optimisers never read max_pop_size and are outside the documented domain of this clause)
+    for k in range(ctx.budget(3, 12)):
+        out.append(dict(out[k], optimiser=rng.choice(['evo', 'surrogate']), num_of_generations=rng.choice([2, 3]), timeout_min=GENEROUS,
+                        early_stopping_iterations=None, early_stopping_timeout=None, pop_size=2, max_pop_size=2,
+                        scheme=rng.choice(['generational', 'steady_state']), initial='three', diversity_check=-1,
+                        objective={'metrics': [rng.choice(['neg_size', 'balance'])], 'multi': False}))
     # the structural-diversity refill with a max_pop_size below MIN_POP_SIZE
     for k in range(ctx.budget(3, 12)):
         out.append(dict(out[k], optimiser=rng.choice(['evo', 'pop_random_mutation']), num_of_generations=3, timeout_min=GENEROUS,
@@ -781,17 +817,23 @@ def make_configs(ctx):
     return out
 
 
-RCHECK_NAMES = ['agree', 'accepts', 'generations', 'stagnation', 'time', 'zero_budget', 'max_pop', 'adaptive']
+RCHECK_NAMES = ['agree', 'accepts', 'generations', 'stagnation', 'time', 'zero_budget', 'max_pop', 'adaptive', 'terminates']
+MAX_TIMEOUTS = 3
 
 
 def judge_run(ctx, group, rec, flags):
-    ag, acc, gens, stagn, tim, zero, mxp, adp = flags
+    ag, acc, gens, stagn, tim, zero, mxp, adp, term = flags
     s = summarise(rec)
+    if not term:
+        ctx.violate(group, s, 'run did not terminate within %.0f s under limits num_of_generations=%s, timeout=%s min, '
+                              'early_stopping_iterations=%s, early_stopping_timeout=%s (stopped by the watchdog)' % (
+            rec.get('limit_s', 0), rec['cfg'].get('num_of_generations'), rec['cfg'].get('timeout_min'),
+            rec['cfg'].get('early_stopping_iterations'), rec['cfg'].get('early_stopping_timeout')))
     if not ag:
         ctx.disagree(group, s, 'the loop model (counters, stop test before each step, stop test at the end) does not explain the observed run')
     if not acc:
         ctx.violate(group, s, 'a documented combination of stop options made optimise() raise: %s' % rec['outcome'])
-    elif rec['outcome'] != 'ok':
+    elif rec['outcome'] not in ('ok', 'timeout'):
         ctx.notes.append('optimise() raised outside the limit machinery (not a clause of C15): %s' % json.dumps(s)[:1500])
     if not gens:
         ctx.violate(group, s, 'more evolution steps than num_of_generations')
@@ -816,10 +858,32 @@ def start_runs(ctx):
 
 def real_runs(ctx, started=None):
     pool, futures = started or start_runs(ctx)
+    recs = []
+    timeouts = 0
     try:
-        recs = [f.result() for f in futures]
+        for f in futures:
+            if timeouts >= MAX_TIMEOUTS:
+                # fail fast: the limits are broken, the remaining configurations would only burn wall time
+                if f.cancel():
+                    continue
+            try:
+                # second safety net, should the alarm not be delivered inside the worker
+                rec = f.result(timeout=160)
+            except concurrent.futures.CancelledError:
+                continue
+            except concurrent.futures.TimeoutError:
+                ctx.violate('runs', {'note': 'a worker did not answer within 160 s'}, 'run did not terminate (worker unresponsive)')
+                for proc in list(getattr(pool, '_processes', {}).values()):
+                    proc.kill()
+                break
+            recs.append(rec)
+            if rec['outcome'] == 'timeout':
+                timeouts += 1
+        skipped = len(futures) - len(recs)
+        if skipped:
+            ctx.notes.append('%d configurations were not run: %d runs had to be stopped by the watchdog' % (skipped, timeouts))
     finally:
-        pool.shutdown(wait=True)
+        pool.shutdown(wait=False, cancel_futures=True)
     cases = [run_case(r) for r in recs]
     # canary: one more evolved generation than observed is claimed for a run limited by num_of_generations
     base = next((r for r in recs if r['cfg']['optimiser'] in optrun.POPULATIONAL and r['cfg'].get('num_of_generations') is not None
@@ -829,7 +893,7 @@ def real_runs(ctx, started=None):
         bad['evolved_sizes'] = bad['evolved_sizes'] + [1] * (bad['cfg']['num_of_generations'] + 1)
         cases.append(run_case(bad))
         ctx.canaries += 1
-    res = ctx.coq_cases('runs', REQ, 'rcheck', cases, 8, shard=40)
+    res = ctx.coq_cases('runs', REQ, 'rcheck', cases, 9, shard=40)
     if base is not None:
         if not res[-1][0] and not res[-1][2]:
             ctx.canaries_caught += 1
@@ -891,6 +955,8 @@ def run(ctx):
             ctx.sample(meta[len(meta) // 2])
         unit_api(ctx)
         real_runs(ctx, started)
+        # replayable failing configurations first: the first violation becomes the replay file
+        ctx.violations.sort(key=lambda v: v['group'] != 'runs')
     finally:
         started[0].shutdown(wait=False, cancel_futures=True)
 
@@ -902,6 +968,6 @@ def replay(ctx, payload):
     if not cfg:
         return
     rec = run_real(cfg)
-    res = ctx.coq_cases('replay', REQ, 'rcheck', [run_case(rec)], 8)
+    res = ctx.coq_cases('replay', REQ, 'rcheck', [run_case(rec)], 9)
     ctx.count('replay', key=json.dumps(cfg, sort_keys=True), nontrivial=True)
     judge_run(ctx, 'replay', rec, res[0])
